@@ -235,6 +235,14 @@ run_histogram(const Plan& p, sim::Result& res)
       // prompt/delayed settings, and a cut-off after frames.  Every result has to be what a fresh object gives: the count.
       Lm2P conv;
       const int nreq = (int)r.range(2, 4);
+      // in half of the cases the requests also share the list-mode DATA object (as an interactive session does): every
+      // process_data then has to start from the beginning of the list by itself
+      shared_ptr<ListModeData> shared_src;
+      if (r.chance(0.5))
+        {
+          shared_src.reset(new lm::SimListModeData(w.scanner_pdi, w.script, w.has_delayeds, o.eof_after));
+          sim::probe("reuse_shared_listmode_object");
+        }
       for (int q = 0; q < nreq; ++q)
         {
           HistOpts oq = o;
@@ -254,7 +262,7 @@ run_histogram(const Plan& p, sim::Result& res)
                 e0 = w.t_end;
             }
           std::map<BinKey, float> want = expected_histogram(w, *out_pdi, s0, e0, oq);
-          std::map<BinKey, float> got = histogram_in_memory(w, s0, e0, oq, hq, nullptr, &conv);
+          std::map<BinKey, float> got = histogram_in_memory(w, s0, e0, oq, hq, nullptr, &conv, shared_src);
           sim::logf("reuse request %d cutoff %ld frame [%g,%g) bins %zu", q, oq.num_events_to_store, s0, e0, got.size());
           compare_hist(got, want, q == 0 ? "reuse:first_request" : (oq.num_events_to_store > 0 ? "reuse:cutoff_after_other_requests" : "reuse:frame_after_other_requests"),
                        "converter object used for several requests in a row");
